@@ -48,7 +48,10 @@ def ref_target(target):
 
 FIELD_ITEMS = [("Host", "HTTP_HOST"), ("Content-Type", "CONTENT_TYPE"), ("X-A", "HTTP_X_A"), ("x-a", "HTTP_X_A"),
                ("Cookie", "HTTP_COOKIE"), ("Accept", "HTTP_ACCEPT"), ("X-B-C", "HTTP_X_B_C"), ("X_Under", None),
-               ("Script-Name", "HTTP_SCRIPT_NAME"), ("Content_Type", None)]
+               ("Script-Name", "HTTP_SCRIPT_NAME"), ("Content_Type", None),
+               # a forwarder header (the bench's peer 127.0.0.1 is in the default forwarded_allow_ips): it is let through
+               # under its underscore name; that says nothing about any other underscore name in the same request
+               ("PATH_INFO", "HTTP_PATH_INFO")]
 VALUE_KINDS = [b"/app", b"v1", b"caf\xe9", b"  padded \t", b"", b"a,b", b"v2", b"\x0bvt\x0c", b"\xa0nb\x85", b"\x1fus\x1c"]
 
 
